@@ -411,10 +411,14 @@ impl<'a> From<Piece<'a>> for Chunk {
                         None => "%+".to_owned(),
                     };
 
-                    if chrono::format::StrftimeItems::new(&format)
-                        .any(|item| matches!(item, chrono::format::Item::Error))
+                    // chrono reports an unusable format only when rendering: try it once now
+                    // (parse-only items such as `%#z` pass the item scan but cannot be rendered)
                     {
-                        return Chunk::Error(format!("invalid date format `{}`", format));
+                        use std::fmt::Write as _;
+                        let mut probe = String::new();
+                        if write!(probe, "{}", Utc::now().format(&format)).is_err() {
+                            return Chunk::Error(format!("invalid date format `{}`", format));
+                        }
                     }
 
                     let timezone = match formatter.args.get(1) {
